@@ -39,13 +39,15 @@ TEXTS.update(_collide.twins(A, 'def exp { splitters: uid return "V1" weighted 1,
 INPUTS = [
     {"uid": 1, "org": "a", "f": 1, "g": 3},
     {"uid": "1", "org": "b", "f": 0, "g": 0},
+    {"uid": True, "org": "a", "f": 1, "g": 3},  # == 1 but prints differently (an untyped memo would merge them)
+    {"uid": 1.0, "org": "a", "f": 1.0, "g": 3},
     {"uid": 2, "org": "a", "f": 1, "g": 9},
 ]
 
 
 def spec_for(tier):
     if tier == "quick":
-        return xlife.Spec(TEXTS, INPUTS[:2], slots=2, depth=3)
+        return xlife.Spec(TEXTS, INPUTS[:4], slots=2, depth=3)
     return xlife.Spec(TEXTS, INPUTS, slots=3, depth=4)
 
 
